@@ -283,6 +283,10 @@ func (m *Mast) flush(ctx context.Context) (string, error) {
 	if err != nil {
 		return "", fmt.Errorf("load root: %w", err)
 	}
+	if node.isEmpty() {
+		// never-populated tree: nothing to store, same root as an emptied tree
+		return "", nil
+	}
 	storeQ := make(chan func() error)
 	n := 40
 	gate := make(chan interface{}, n)
